@@ -178,7 +178,7 @@ INT_OPS = {
     'mov': OP(1, u='x'),
 }
 FLT_OPS = {
-    'add': OP(2, f='fx + fy'), 'sub': OP(2, f='fx - fy'), 'mul': OP(2, f='FMUL(fx, fy)'), 'div': OP(2, f='FDIV(fx, fy)'),
+    'add': OP(2, f='FADD(fx, fy)'), 'sub': OP(2, f='FSUB(fx, fy)'), 'mul': OP(2, f='FMUL(fx, fy)'), 'div': OP(2, f='FDIV(fx, fy)'),
     'sqrt': OP(1, f='SQRT(fx)'), 'min': OP(2, f='fx < fy ? fx : fy'), 'max': OP(2, f='fx > fy ? fx : fy'),
     'mov': OP(1, u='x'),
     'and': OP(2, u='x & y'), 'or': OP(2, u='x | y'), 'xor': OP(2, u='x ^ y'), 'andnot': OP(2, u='(U)~x & y'),
@@ -206,6 +206,8 @@ def subst(expr, b):
     e = re.sub(r'\bB\b', str(b), e)
     e = re.sub(r'\bU\b', UT[b], e)
     e = re.sub(r'\bS\b', ST[b], e)
+    e = re.sub(r'\bFADD\b', 'AVM_FADD_f32' if b == 32 else 'AVM_FADD_f64', e)
+    e = re.sub(r'\bFSUB\b', 'AVM_FSUB_f32' if b == 32 else 'AVM_FSUB_f64', e)
     e = re.sub(r'\bFMUL\b', 'AVM_FMUL_f32' if b == 32 else 'AVM_FMUL_f64', e)
     e = re.sub(r'\bFDIV\b', 'AVM_FDIV_f32' if b == 32 else 'AVM_FDIV_f64', e)
     e = re.sub(r'\bSQRT\b', 'avm_sqrtf' if b == 32 else 'avm_sqrt', e)
@@ -1020,10 +1022,7 @@ def r_shuffle_builtins(name):
         op = {'add': '+', 'sub': '-', 'mul': '*', 'div': '/'}[m.group(1)]
         cv, st = ('avm_u2f', 'avm_f2u') if b == 32 else ('avm_u2d', 'avm_d2u')
         xa, xb = '%s(AVM_L%d(a, i))' % (cv, b), '%s(AVM_L%d(b, i))' % (cv, b)
-        if op in '*/':
-            fexpr = 'AVM_%s_f%d(%s, %s)' % ('FMUL' if op == '*' else 'FDIV', b, xa, xb)
-        else:
-            fexpr = '%s %s %s' % (xa, op, xb)
+        fexpr = 'AVM_%s_f%d(%s, %s)' % ({'*': 'FMUL', '/': 'FDIV', '+': 'FADD', '-': 'FSUB'}[op], b, xa, xb)
         # rounding argument: 4 = current direction (the only value AVEL uses); others would need an explicit mode
         body = ('  __CPROVER_assert(rounding == 4, "model: only _MM_FROUND_CUR_DIRECTION is modelled");\n'
                 '  m512 r = {{0}};\n  for (int i = 0; i < %d; i++) AVM_S%d(r, i, %s(%s));\n  return r;\n' % (512 // b, b, st, fexpr))
